@@ -191,10 +191,15 @@ class Ctx:
         ckey = None
         if cdir:
             hh = hashlib.sha256()
+            # everything TLC can read: the modules and every data file already present (recorded traces
+            # of the library under test are inputs of the trace specifications)
             for fn in sorted(os.listdir(d)):
-                if fn.endswith(".tla"):
+                fp = os.path.join(d, fn)
+                if os.path.isfile(fp) and not fn.endswith(".cfg"):
                     hh.update(fn.encode())
-                    hh.update(open(os.path.join(d, fn), "rb").read())
+                    with open(fp, "rb") as fh:
+                        for chunk in iter(lambda: fh.read(1 << 20), b""):
+                            hh.update(chunk)
             hh.update(open(os.path.join(d, cfgname), "rb").read())
             hh.update(repr([module, workers, simulate, depth, self.seed if simulate is not None else 0, list(extra), coverage]).encode())
             ckey = os.path.join(cdir, hh.hexdigest()[:24])
